@@ -246,6 +246,12 @@ int main(int argc, char **argv) {
       "proc main() is var x; 0(x)",
       "proc f(val n) is var t; { if n = 0 then 0(t) else f(n - 1) } proc main() is f(5)"};
     for (auto src : unwritten) { auto cr = ad::xcompile(src, ad::X_BINARY, ctx.scratch + "/t.bin"); if (cr.status == 0) progs.push_back({"unwritten", slurp(ctx.scratch + "/t.bin"), ""}); else rep.st.add("unwritten_program_not_compiled"); }
+    // large images (the program is short, the image is not): data words above the code that the program reads back from the far end
+    for (int words : {49990, 50000, 50001, 120000, 199000}) {
+      std::string src = "BR start\nDATA 199990\nstart\nLDAC " + std::to_string(words) + "\nLDAI 10\nLDBM 1\nSTAI 2\nLDAC 0\nOPR SVC\n"; for (int i = 0; i < words + 8; i++) src += "DATA " + std::to_string((i * 7 + 3) & 0xFF) + "\n";
+      auto ar = ad::assemble_text(src, ad::A_FILE, ctx.scratch + "/t.bin");
+      if (ar.kind == 0) progs.push_back({"large-image:" + std::to_string(words), ar.file, ""}); else rep.st.add("large_image_not_assembled");
+    }
     unlink((ctx.scratch + "/t.bin").c_str());
     auto body2 = [&](uint64_t b, uint64_t e, const std::set<uint64_t> &skip, Stats &st, volatile uint64_t *cur) {
       std::string dir = ctx.scratch + "/s" + std::to_string(b); mkdir(dir.c_str(), 0755); if (chdir(dir.c_str())) exit(3);
@@ -256,7 +262,7 @@ int main(int argc, char **argv) {
         Machine ref; Env env; env.in = p.input; ref.loadWords(img.body);
         uint64_t steps = 0; bool ok = true;
         while (!env.exited && steps < 30000000) { if (ref.classify(false) != refisa::DEFINED) { ok = false; break; } ref.step(env); steps++; }
-        if (!ok || !env.exited) { st.add("shipped_skipped_not_defined_or_long"); continue; }
+        if (!ok || !env.exited) { st.add("shipped_skipped_not_defined_or_long"); st.add("shipped_skipped:" + p.name); continue; }
         spit(dir + "/p.bin", p.file);
         for (int fill : FILLS) for (int tr = 0; tr < 2; tr++) {
           if (tr && steps > 300000) continue;
